@@ -134,18 +134,126 @@ package iso7816
 //@ uf chipSaidNotFound(ref, int) bool
 //@ spec func tlvTotal(s seq) int { tagLenS(s) + lenLenS(s[tagLenS(s):]) + lenValS(s[tagLenS(s):]) }
 
-//@ func (nfc *NfcSession) DoAPDU
-//@   props C13 C11
+// A usable session has a transceiver and a log (NewNfcSession establishes both; no method clears them).
+//@ pred validNfc(nfc *NfcSession) { nfc != nil && nfc.transceiver != nil && nfc.apduLog != nil && 0 <= nfc.maxLe && nfc.maxLe <= 65536 }
+// Ghost marks: smWrapped(c) - c was produced by the installed session's Encode; smDecoded(r) - r was produced
+// by the installed session's Decode. They are attached by the (trusted) contract of the SecureMessenger
+// interface, whose implementation (*SecureMessaging) is verified separately against the ICAO message structure.
+// Ghost: status word of the most recent completed exchange of the session (-1 when the exchange failed).
+//@ ghost field NfcSession.lastSW int
+//@ uf smWrapped(ref) bool
+//@ uf smDecoded(ref) bool
+//@ func (sm SecureMessenger) Encode(cApdu *CApdu) (out *CApdu, err error)
 //@   trusted
-//@   requires nfc != nil && cApdu != nil
+//@   requires sm != nil
+//@   ensures err == nil ==> out != nil && okCApdu(out)
+//@   ensures err != nil ==> out == nil
+//@   ensures fresh(out)
+//@   defines err == nil ==> smWrapped(out)
+//@   assigns content(sm)
+//@ func (sm SecureMessenger) Decode(rApduBytes []byte) (rApdu *RApdu, err error)
+//@   trusted
+//@   requires sm != nil
 //@   ensures err == nil ==> rApdu != nil
 //@   ensures err != nil ==> rApdu == nil
-//@   ensures "conforming-chip-read-binary": err == nil && cApdu.cla == 0 && cApdu.ins == 176 && rApdu.Status == 36864 ==>
+//@   ensures fresh(rApdu)
+//@   defines err == nil ==> smDecoded(rApdu)
+//@   assigns content(sm)
+// The transport is external: any byte string may come back; it does not write to the caller's buffers.
+//@ func (t Transceiver) Transceive
+//@   trusted
+//@   requires t != nil
+//@   ensures fresh(result)
+//@   assigns nothing
+
+// The APDU log is diagnostic state owned by the session: its backing array is treated as part of the log object
+// (ownership abstraction, trusted): appending an entry changes nothing but the log.
+//@ func (l *ApduLog) Add
+//@   trusted
+//@   requires l != nil
+//@   assigns content(l)
+
+//@ func (nfc *NfcSession) doTransceive
+//@   props C10 C11 C03
+//@   requires validNfc(nfc) && okCApdu(cApdu)
+//@   requires "no-command-leaves-unprotected": nfc.sm != nil ==> smWrapped(cApdu)
+//@   ensures (err == nil) == (rApdu != nil)
+//@   ensures apduLogEntry != nil && fresh(apduLogEntry)
+//@   ensures fresh(rApdu)
+//@   assigns nothing
+//@   safety all
+
+// DoAPDU is verified for its structure (while a session is installed every command goes through Encode and only
+// what Decode returned is handed back); the two "assumes" clauses are the conforming-chip model used by C13:
+// they are assumptions about the chip, not facts about this code, and are listed as trusted in the evidence.
+//@ func (nfc *NfcSession) DoAPDU
+//@   props C13 C11 C10 C03
+//@   requires validNfc(nfc) && okCApdu(cApdu)
+//@   ensures err == nil ==> rApdu != nil
+//@   ensures err != nil ==> rApdu == nil
+//@   ensures "only-decoded-responses-while-session-installed": err == nil && old(nfc.sm) != nil ==> smDecoded(rApdu)
+//@   assumes "conforming-chip-read-binary": err == nil && cApdu.cla == 0 && cApdu.ins == 176 && rApdu.Status == 36864 ==>
 //@        cApdu.p1*256 + cApdu.p2 + len(rApdu.Data) <= len(ef(nfc))
 //@        && rApdu.Data === ef(nfc)[cApdu.p1*256 + cApdu.p2 : cApdu.p1*256 + cApdu.p2 + len(rApdu.Data)]
-//@   ensures "chip-said-not-found": err == nil && cApdu.ins == 164 && len(cApdu.data) == 2 && (rApdu.Status == 27266 || rApdu.Status == 25219) ==>
+//@   assumes "chip-said-not-found": err == nil && cApdu.ins == 164 && len(cApdu.data) == 2 && (rApdu.Status == 27266 || rApdu.Status == 25219) ==>
 //@        chipSaidNotFound(nfc, cApdu.data[0]*256 + cApdu.data[1])
-//@   assigns nfc.lastApduLogEntry, content(nfc.apduLog), content(nfc.sm)
+//@   defines setghost(nfc, "lastSW", err == nil ? rApdu.Status : 0 - 1)
+//@   assigns nfc.lastApduLogEntry, content(nfc.apduLog), content(nfc.sm), nfc.lastSW
+//@   safety all
+
+// ---------------------------------------------------------------- C11: command helpers return data only after SW 9000 and the stated length
+//@ func (nfc *NfcSession) GetChallenge
+//@   props C11 C05
+//@   requires validNfc(nfc) && 0 <= length && length <= 65536
+//@   ensures "data-only-after-9000-with-exact-length": err == nil ==> nfc.lastSW == 36864 && len(out) == length
+//@   ensures err != nil ==> out == nil
+//@   assigns nfc.lastApduLogEntry, content(nfc.apduLog), content(nfc.sm), nfc.lastSW
+//@   safety all
+//@ func (nfc *NfcSession) InternalAuthenticate
+//@   props C11 C07
+//@   requires validNfc(nfc) && len(data) <= 65535
+//@   ensures "data-only-after-9000": err == nil ==> nfc.lastSW == 36864
+//@   ensures err != nil ==> out == nil
+//@   ensures fresh(out)
+//@   assigns nfc.lastApduLogEntry, content(nfc.apduLog), content(nfc.sm), nfc.lastSW
+//@   safety all
+//@ func (nfc *NfcSession) ExternalAuthenticate
+//@   props C11 C05
+//@   requires validNfc(nfc) && len(data) <= 65535 && 0 <= le && le <= 65536
+//@   ensures "data-only-after-9000-with-exact-length": err == nil ==> nfc.lastSW == 36864 && len(out) == le
+//@   ensures err != nil ==> out == nil
+//@   assigns nfc.lastApduLogEntry, content(nfc.apduLog), content(nfc.sm), nfc.lastSW
+//@   safety all
+//@ func (nfc *NfcSession) GeneralAuthenticate
+//@   props C11 C04 C06
+//@   requires validNfc(nfc) && len(data) <= 65535
+//@   ensures "data-only-after-9000": result1 == nil ==> nfc.lastSW == 36864
+//@   ensures result1 != nil ==> result0 == nil
+//@   ensures fresh(result0)
+//@   assigns nfc.lastApduLogEntry, content(nfc.apduLog), content(nfc.sm), nfc.lastSW
+//@   safety all
+//@ func (nfc *NfcSession) MseSetAT
+//@   props C11 C04 C06
+//@   requires validNfc(nfc) && len(data) <= 65535
+//@   ensures "success-only-after-9000": err == nil ==> nfc.lastSW == 36864
+//@   assigns nfc.lastApduLogEntry, content(nfc.apduLog), content(nfc.sm), nfc.lastSW
+//@   safety all
+//@ func (nfc *NfcSession) SelectMF
+//@   props C11
+//@   requires validNfc(nfc)
+//@   ensures "success-only-after-9000": err == nil ==> nfc.lastSW == 36864
+//@   loop 1 invariant validNfc(nfc) && len(variants) == 2
+//@   loop 1 invariant rangeindex >= 0 ==> rapdu != nil && rapdu.Status == nfc.lastSW && rapdu.Status != 36864
+//@   assigns nfc.lastApduLogEntry, content(nfc.apduLog), content(nfc.sm), nfc.lastSW
+//@   safety all
+//@ func (nfc *NfcSession) SelectAid
+//@   props C11
+//@   requires validNfc(nfc) && len(aid) <= 65535
+//@   ensures "selected-only-after-9000": err == nil && selected ==> nfc.lastSW == 36864
+//@   ensures "not-found-only-on-6A82": err == nil && !selected ==> nfc.lastSW == 27266
+//@   ensures err != nil ==> !selected
+//@   assigns nfc.lastApduLogEntry, content(nfc.apduLog), content(nfc.sm), nfc.lastSW
+//@   safety all
 
 //@ func (apdu *RApdu) IsSuccess
 //@   props C13 C11
@@ -162,34 +270,36 @@ package iso7816
 
 //@ func (nfc *NfcSession) SelectEF
 //@   props C13 C11
-//@   requires nfc != nil
+//@   requires validNfc(nfc)
 //@   ensures "not-found-only-if-chip-says-so": err == nil && !selected ==> chipSaidNotFound(nfc, fileId)
 //@   ensures err != nil ==> !selected
-//@   assigns nfc.lastApduLogEntry, content(nfc.apduLog), content(nfc.sm)
+//@   assigns nfc.lastApduLogEntry, content(nfc.apduLog), content(nfc.sm), nfc.lastSW
 //@   safety all
 
 //@ func (nfc *NfcSession) ReadBinaryFromOffset
 //@   props C13 C11
-//@   requires nfc != nil
+//@   requires validNfc(nfc) && 0 <= length && length <= 65536
 //@   ensures "chunk-is-file-segment": err == nil ==> len(result0) <= length && offset + len(result0) <= len(ef(nfc))
 //@        && 0 <= offset && offset <= 65535 && result0 === ef(nfc)[offset : offset + len(result0)]
 //@   ensures err != nil ==> result0 == nil
-//@   assigns nfc.lastApduLogEntry, content(nfc.apduLog), content(nfc.sm)
+//@   assigns nfc.lastApduLogEntry, content(nfc.apduLog), content(nfc.sm), nfc.lastSW
 //@   safety all
 
+// The fallback table is a package variable; its initial contents are what the read loop relies on.
+//@ invariant len(readFileMaxReadFallbacks) == 3 && readFileMaxReadFallbacks[0] == 256 && readFileMaxReadFallbacks[1] == 192 && readFileMaxReadFallbacks[2] == 128
 //@ func (nfc *NfcSession) readWithFallback
 //@   props C13 C11
-//@   requires nfc != nil
+//@   requires validNfc(nfc) && 0 <= maxReadAmount && maxReadAmount <= 65536 && 0 <= remaining
 //@   ensures "chunk-is-file-segment": err == nil ==> len(result0) <= remaining && offset + len(result0) <= len(ef(nfc))
 //@        && result0 === ef(nfc)[offset : offset + len(result0)]
-//@   ensures "max-only-decreases": result1 <= maxReadAmount
+//@   ensures "max-only-decreases": 0 <= result1 && result1 <= maxReadAmount
 //@   loop 1 invariant err != nil
-//@   assigns nfc.lastApduLogEntry, content(nfc.apduLog), content(nfc.sm)
+//@   assigns nfc.lastApduLogEntry, content(nfc.apduLog), content(nfc.sm), nfc.lastSW
 //@   safety all
 
 //@ func (nfc *NfcSession) ReadFile
 //@   props C13 C11
-//@   requires nfc != nil && nfc.readFileMaxChunks >= 0 && nfc.readFileMaxTlvLength <= 65535
+//@   requires validNfc(nfc) && nfc.readFileMaxChunks >= 0 && nfc.readFileMaxTlvLength <= 65535
 //@   ensures "exact-file": err == nil && fileData != nil ==> len(fileData) == tlvTotal(ef(nfc)) && fileData === ef(nfc)[:len(fileData)]
 //@   ensures "not-found-only-if-chip-says-so": err == nil && fileData == nil ==> chipSaidNotFound(nfc, fileId)
 //@   ensures "max-le-only-decreases": nfc.maxLe <= old(nfc.maxLe)
@@ -198,7 +308,7 @@ package iso7816
 //@   loop 1 invariant "total-is-header-plus-value": totalBytes == tlvTotal(ef(nfc))
 //@   loop 1 invariant "total-bounded": totalBytes <= 65539
 //@   loop 1 invariant 0 <= chunkCnt && chunkCnt <= nfc.readFileMaxChunks && nfc.readFileMaxChunks == old(nfc.readFileMaxChunks)
-//@   loop 1 invariant maxReadAmount <= old(nfc.maxLe) && nfc.maxLe <= old(nfc.maxLe)
+//@   loop 1 invariant 0 <= maxReadAmount && maxReadAmount <= old(nfc.maxLe) && 0 <= nfc.maxLe && nfc.maxLe <= old(nfc.maxLe) && validNfc(nfc)
 //@   loop 1 decreases nfc.readFileMaxChunks - chunkCnt
 //@   safety all
 
